@@ -87,31 +87,7 @@ Theorem expected_cells :
        sym_index al (nth j (p_syms p) x00) = Some (nth j idx 0) /\
        nth (nth j idx 0) row CZero = CTok (nth j toks [])) /\
     (forall k, ~ In k idx -> nth k row CZero = CZero).
-Proof.
-  intros al p idx Hp Hne Hs. unfold expected_record. cbn [r_data]. rewrite Hs.
-  destruct (p_syms p) as [|c cs] eqn:Esy; [congruence|].
-  exists (build_matrix al idx (map pr_toks (p_rows p))). split; [reflexivity|].
-  unfold build_matrix. rewrite !map_length. split; [reflexivity|].
-  intros i Hi. cbv zeta.
-  assert (Hrow : nth i (map (build_row al idx) (map pr_toks (p_rows p))) [] =
-                 build_row al idx (pr_toks (nth i (p_rows p) (mkRow [] [] [])))).
-  { rewrite map_map. rewrite nth_indep with (d' := build_row al idx (pr_toks (mkRow [] [] [])));
-      [|rewrite map_length; exact Hi].
-    apply (map_nth (fun x => build_row al idx (pr_toks x))). }
-  rewrite Hrow. rewrite <- Esy in *.
-  unfold prec_ok in Hp. rewrite Esy in Hp. rewrite <- Esy in Hp.
-  apply andb_true_iff in Hp. destruct Hp as [_ Hp].
-  apply andb_true_iff in Hp. destruct Hp as [Hp Hrows].
-  apply andb_true_iff in Hp. destruct Hp as [Hp _].
-  apply andb_true_iff in Hp. destruct Hp as [Hp _].
-  apply andb_true_iff in Hp. destruct Hp as [_ Hnd].
-  assert (Hr : row_ok (length (p_syms p)) (nth i (p_rows p) (mkRow [] [] [])) = true).
-  { rewrite forallb_forall in Hrows. apply Hrows, nth_In, Hi. }
-  unfold row_ok in Hr. apply andb_true_iff in Hr. destruct Hr as [Hr _].
-  apply andb_true_iff in Hr. destruct Hr as [Hr _].
-  apply andb_true_iff in Hr. destruct Hr as [_ Hlen]. apply Nat.eqb_eq in Hlen.
-  exact (build_row_spec al (p_syms p) idx _ Hs Hnd Hlen).
-Qed.
+Proof. exact expected_cells_lemma. Qed.
 
 (* ---- the extracted checker used by the driver ---- *)
 
